@@ -247,7 +247,7 @@ func runCase(c Case) vh.Result {
 		panic("victim could not set up the fault: " + out.String())
 	}
 	size := c.Sizes[c.Target]
-	midWrite := c.Fault == "handback-at-stop" || c.Fault == "enospc" || c.Fault == "fsize-steps" || c.Fault == "damage:empty" || (strings.HasPrefix(c.Fault, "fsize") && c.K > 0 && c.K < size) || c.Fault == "kill:after-open" || c.Fault == "kill:after-write" || c.Fault == "kill:after-close"
+	midWrite := c.Fault == "handback-at-stop" || c.Fault == "enospc" || c.Fault == "fsize-steps" || strings.HasPrefix(c.Fault, "damage:") || (strings.HasPrefix(c.Fault, "fsize") && c.K > 0 && c.K < size) || c.Fault == "kill:after-open" || c.Fault == "kill:after-write" || c.Fault == "kill:after-close"
 	res.NonTrivial = midWrite
 	res.Classes = append(res.Classes, "fault-"+c.Fault)
 	if died {
@@ -275,10 +275,56 @@ func runCase(c Case) vh.Result {
 			panic(err)
 		}
 	}
+	// further kinds of damage found at the next start (no fault in the victim). The file of the affected chunk ...
+	var targetFile string
+	if strings.HasPrefix(c.Fault, "damage:") && c.Fault != "damage:empty" {
+		matches, _ := filepath.Glob(filepath.Join(root, "q", "*", chunkID(c.Target)))
+		if len(matches) != 1 {
+			panic(fmt.Sprintf("expected the file of chunk %d, found %v\n%s", c.Target, matches, out.String()))
+		}
+		targetFile = matches[0]
+		switch c.Fault {
+		case "damage:unreadable":
+			// ... can be opened and examined but every read fails (what EIO on a bad sector looks like to the agent; produced
+			// without privileges by a directory of that name: read(2) returns EISDIR)
+			if err := os.Remove(targetFile); err != nil {
+				panic(err)
+			}
+			if err := os.Mkdir(targetFile, 0o755); err != nil {
+				panic(err)
+			}
+		case "damage:dangling":
+			// ... is a name that cannot be opened (a symbolic link whose target is gone)
+			if err := os.Remove(targetFile); err != nil {
+				panic(err)
+			}
+			if err := os.Symlink(filepath.Join(root, "no-such-file"), targetFile); err != nil {
+				panic(err)
+			}
+		case "damage:foreign-entries":
+			// ... is intact, but the directory also holds entries that are no chunks: they must neither be forwarded nor be in the way
+			dir := filepath.Dir(targetFile)
+			_ = os.WriteFile(filepath.Join(dir, "README.txt"), []byte("not a chunk"), 0o644)
+			_ = os.WriteFile(filepath.Join(dir, chunkID(c.Target)+".tmp"), []byte("an unfinished copy"), 0o644)
+			_ = os.WriteFile(filepath.Join(dir, chunkID(0)+".tmp"), nil, 0o644)
+			_ = os.Mkdir(filepath.Join(dir, "lost+found"), 0o755)
+			_ = os.WriteFile(filepath.Join(dir, ".hidden"), []byte("x"), 0o644)
+		}
+	}
 	// restart on the same directory with a strict consumer
 	mf := promreg.NewMetricFactory("p_", nil, nil)
 	b := newBuffer(filepath.Join(root, "q"), mf)
 	b.Start()
+	if c.Fault == "damage:vanished" {
+		// ... was there when the directory was listed (Start lists it synchronously) and is gone when the chunk is to be
+		// loaded: with a memory window of 2 and no consumer yet, the feeder cannot have gone beyond the fourth file
+		if c.Target < 4 {
+			panic("HARNESS-ERROR: damage:vanished needs the affected chunk at position >= 4")
+		}
+		if err := os.Remove(targetFile); err != nil {
+			panic(err)
+		}
+	}
 	args := b.RegisterNewConsumer()
 	delivered := map[string][]byte{}
 	var order []string
@@ -327,6 +373,14 @@ loop:
 				res.Violation = vh.Fail("crash:empty-file-not-handled", "the empty file of chunk %d was delivered=%v, dropped counter of the restarted agent %v", i, ok, recoveredDropped)
 				return res
 			}
+			if c.Fault == "damage:foreign-entries" && !ok {
+				res.Violation = vh.Fail("crash:other-chunk-not-recovered", "chunk %d (%s) is intact on disk but was not delivered after the restart: entries of the queue directory that are no chunks got in the way (delivered %v)", i, id, order)
+				return res
+			}
+			if (c.Fault == "damage:unreadable" || c.Fault == "damage:dangling" || c.Fault == "damage:vanished") && (ok || recoveredDropped < 1) {
+				res.Violation = vh.Fail("crash:unreadable-file-not-handled", "the file of chunk %d cannot be read (%s): delivered=%v, dropped counter of the restarted agent %v (a chunk that cannot be loaded is to be counted as dropped)", i, c.Fault, ok, recoveredDropped)
+				return res
+			}
 			if !ok && !died && c.Fault != "damage:empty" {
 				// not forwarded and the victim lived on: the loss must be visible in its metrics
 				if rep.Metrics["dropped"] < 1 && recoveredDropped < 1 {
@@ -361,7 +415,8 @@ loop:
 }
 
 // (handback-at-stop is generated separately: it has its own shape of case)
-var faults = []string{"fsize-error", "fsize-kill", "fsize-killmid", "damage:empty", "kill:after-open", "kill:after-write", "kill:after-close", "kill:after-rename", "fsize-steps", "enospc"}
+var faults = []string{"fsize-error", "fsize-kill", "fsize-killmid", "damage:empty", "kill:after-open", "kill:after-write", "kill:after-close", "kill:after-rename", "fsize-steps", "enospc",
+	"damage:unreadable", "damage:dangling", "damage:vanished", "damage:foreign-entries"}
 
 func genCase(t *rapid.T) Case {
 	var c Case
@@ -386,6 +441,12 @@ func genCase(t *rapid.T) Case {
 			c.K = 0
 		}
 	}
+	if c.Fault == "damage:vanished" {
+		for len(c.Sizes) < 6 {
+			c.Sizes = append(c.Sizes, rapid.IntRange(1, 5000).Draw(t, "size"))
+		}
+		c.Target = rapid.IntRange(4, len(c.Sizes)-1).Draw(t, "vanishTarget")
+	}
 	if c.Fault == "fsize-steps" {
 		size := c.Sizes[c.Target]
 		if size < 3 {
@@ -399,6 +460,13 @@ func genCase(t *rapid.T) Case {
 }
 
 func enumFaults(yield func(Case) bool) {
+	if vh.Shard == 0 {
+		for _, target := range []int{4, 5, 6} {
+			if !yield(Case{Sizes: []int{9, 11, 13, 15, 17, 19, 21}, Target: target, Fault: "damage:vanished"}) {
+				return
+			}
+		}
+	}
 	sizes := []int{1, 7, 48}
 	if vh.Tier == "thorough" {
 		sizes = nil
@@ -439,7 +507,7 @@ func enumFaults(yield func(Case) bool) {
 					}
 				}
 			}
-			for _, f := range append(append([]string{}, faults[3:8]...), "enospc") { // damage:empty, the kill points, ENOSPC
+			for _, f := range append(append([]string{}, faults[3:8]...), "enospc", "damage:unreadable", "damage:dangling", "damage:foreign-entries") { // damage:*, the kill points, ENOSPC
 				idx++
 				if vh.NShards > 1 && idx%vh.NShards != vh.Shard {
 					continue
@@ -457,7 +525,7 @@ func enumFaults(yield func(Case) bool) {
 
 func TestC04Crash(t *testing.T) {
 	vh.Run(t, vh.Spec[Case]{
-		Name: "crash", Gen: genCase, Run: runCase, Quick: 40, Thorough: 400, Enum: enumFaults, ShrinkSeconds: 10,
-		Rule: "a victim process spills 2-6 chunks through the real hybrid buffer (memory window 2) and one chunk file write suffers: RLIMIT_FSIZE=k with SIGXFSZ ignored (short write, then EFBIG), RLIMIT_FSIZE=k with the default disposition (the Go runtime does not let SIGXFSZ kill the process, so this is the same error path), RLIMIT_FSIZE=k plus SIGKILL right after the partial write (killed mid-write at offset k), or SIGKILL at kill point after-open/after-write/after-close/after-rename (hook H1), or a real ENOSPC from write(2) (temporary name pre-created as a symbolic link to /dev/full); k enumerated 0..size for sizes {1,7,48} [quick] / 1..48 [thorough] x affected chunk first/middle/last, rapid adds sizes up to 200 KB; then a restart on the same directory with a strict consumer; oracle: every delivered chunk byte-identical to a produced one, the affected chunk intact or absent (and counted when the victim survived), every other persisted chunk delivered; non-trivial = write stopped strictly inside the chunk or a kill between open and completion",
+		Name: "crash", Gen: genCase, Run: runCase, Journal: true, Quick: 40, Thorough: 400, Enum: enumFaults, ShrinkSeconds: 10,
+		Rule: "a victim process spills 2-6 chunks through the real hybrid buffer (memory window 2) and one chunk file write suffers: RLIMIT_FSIZE=k with SIGXFSZ ignored (short write, then EFBIG), RLIMIT_FSIZE=k with the default disposition (the Go runtime does not let SIGXFSZ kill the process, so this is the same error path), RLIMIT_FSIZE=k plus SIGKILL right after the partial write (killed mid-write at offset k), or SIGKILL at kill point after-open/after-write/after-close/after-rename (hook H1), or a real ENOSPC from write(2) (temporary name pre-created as a symbolic link to /dev/full); k enumerated 0..size for sizes {1,7,48} [quick] / 1..48 [thorough] x affected chunk first/middle/last, rapid adds sizes up to 200 KB; or no fault in the victim but damage found at the next start: the chunk file empty, unreadable (opens, every read fails), a dangling name, gone between the directory listing and the load, or intact among entries that are no chunks (.tmp leftovers, other files, sub-directories); then a restart on the same directory with a strict consumer; oracle: every delivered chunk byte-identical to a produced one, the affected chunk intact or absent (and counted when the victim survived), every other persisted chunk delivered; non-trivial = write stopped strictly inside the chunk or a kill between open and completion",
 	})
 }
